@@ -353,10 +353,11 @@ fn structures(ctx: &mut Ctx) {
         judge_no_crash(ctx, &format!("method recursion depth {}", d), &s, &res, "start\n", Some(&format!("start\n{}\n", d)));
     }
     ctx.stage("faults at the bottom of a deep call stack");
-    // a fault 10..10^5 FML frames deep ends the program as cleanly as at top level
+    // a fault 10..10^5 FML frames deep ends the program as cleanly as at top level (printing the cyclic
+    // object is not among the faults: what a cyclic print yields is unspecified as long as nothing crashes)
     let depths: Vec<usize> = if ctx.quick() { vec![10, 100000] } else { vec![10, 1000, 100000] };
     for d in depths {
-        for (what, bottom) in [("division by zero", "1 / 0"), ("unknown variable", "nosuch"), ("unknown method", "n.nosuch()"), ("print arity", "print(\"~ ~\", n)"), ("cyclic print", "print(\"c ~\", cyc)"), ("index", "cyc.a[5]")] {
+        for (what, bottom) in [("division by zero", "1 / 0"), ("unknown variable", "nosuch"), ("unknown method", "n.nosuch()"), ("print arity", "print(\"~ ~\", n)"), ("index", "cyc.a[5]"), ("field of a primitive", "n.nosuch")] {
             if ctx.take().is_none() { continue }
             let s = format!("let cyc = object begin let me = null; let a = array(1, 0) end;\ncyc.me <- cyc;\nfunction down(n) -> if n == 0 then begin print(\"bottom\\n\"); {}; print(\"not reached\\n\") end else 1 + down(n - 1);\nprint(\"start\\n\");\nprint(\"~\\n\", down({}));\nprint(\"not reached either\\n\")", bottom, d);
             ctx.describe(&s);
